@@ -4,6 +4,7 @@
   `RegisterFile.step` for every request, every context layout, every history.
 -/
 import Pymodbus.Lemmas.Exec
+import Pymodbus.Props.C18
 namespace Pymodbus.Props.C04
 open Pymodbus StoreSpec RegisterFile Props.C18
 
@@ -159,6 +160,72 @@ theorem run_refines (s : SlaveCtx) (rs : List Req) (h : AllInScope rs) :
     have := ih (Impl.serverExecute s r).1 h2
     rw [layout_preserved] at this
     rw [this]
+
+/-! ### histories in which the application resets the unit -/
+
+theorem reset_blocks_get (s : SlaveCtx) (k : Nat) :
+    s.reset.blocks[k]? = (s.blocks[k]?).map (fun b => if k = s.d ∨ k = s.c ∨ k = s.i ∨ k = s.h then b.reset else b) := by
+  simp only [SlaveCtx.reset]
+  by_cases hk : k < s.blocks.length
+  · rw [List.getElem?_eq_getElem (by simp [hk]), List.getElem?_eq_getElem hk]
+    simp
+  · rw [List.getElem?_eq_none (by simp; omega), List.getElem?_eq_none (by omega)]
+    rfl
+
+/-- `ModbusSlaveContext.reset()` refines the register file's reset: same cells afterwards, same layout -/
+theorem reset_refines (s : SlaveCtx) :
+    absMem s.reset = (absMem s).reset (layoutOf s) ∧ layoutOf s.reset = layoutOf s := by
+  constructor
+  · funext k a
+    have hL : (k = (layoutOf s).tbl .d ∨ k = (layoutOf s).tbl .c ∨ k = (layoutOf s).tbl .i ∨ k = (layoutOf s).tbl .h) ↔
+        (k = s.d ∨ k = s.c ∨ k = s.i ∨ k = s.h) := Iff.rfl
+    by_cases hk : k = s.d ∨ k = s.c ∨ k = s.i ∨ k = s.h
+    · rw [show (absMem s).reset (layoutOf s) k a = ((absMem s) k a).map (fun _ => 0) from by
+        simp only [Mem.reset]; rw [if_pos (hL.2 hk)]]
+      simp only [absMem, reset_blocks_get]
+      cases hb : s.blocks[k]? with
+      | none => rfl
+      | some b => simp only [Option.map_some, if_pos hk]; exact C18.reset_spec b a
+    · rw [show (absMem s).reset (layoutOf s) k a = (absMem s) k a from by
+        simp only [Mem.reset]; rw [if_neg (fun h => hk (hL.1 h))]]
+      simp only [absMem, reset_blocks_get]
+      cases hb : s.blocks[k]? with
+      | none => rfl
+      | some b => simp only [Option.map_some, if_neg hk]
+  · simp only [layoutOf]
+    congr 1
+    funext k
+    rw [reset_blocks_get]
+    cases s.blocks[k]? <;> rfl
+
+def runImplH (s : SlaveCtx) : List HOp → SlaveCtx × List Resp
+  | [] => (s, [])
+  | .req r :: rs => let x := Impl.serverExecute s r; let y := runImplH x.1 rs; (y.1, x.2 :: y.2)
+  | .reset :: rs => runImplH s.reset rs
+
+def AllInScopeH : List HOp → Prop
+  | [] => True
+  | .req r :: rs => InScope r ∧ AllInScopeH rs
+  | .reset :: rs => AllInScopeH rs
+
+/-- … and so does every history of data-access requests with application-level resets anywhere in between -/
+theorem run_refines_with_resets (s : SlaveCtx) (ops : List HOp) (h : AllInScopeH ops) :
+    RegisterFile.runH (layoutOf s) (absMem s) ops = (absMem (runImplH s ops).1, (runImplH s ops).2) := by
+  induction ops generalizing s with
+  | nil => rfl
+  | cons op rs ih =>
+    cases op with
+    | req r =>
+      obtain ⟨h1, h2⟩ := h
+      simp only [RegisterFile.runH, runImplH, exec_refines s r h1]
+      have := ih (Impl.serverExecute s r).1 h2
+      rw [layout_preserved] at this
+      rw [this]
+    | reset =>
+      simp only [RegisterFile.runH, runImplH]
+      have := ih s.reset h
+      rw [(reset_refines s).2, (reset_refines s).1] at this
+      exact this
 
 /-! ### what the register file guarantees (corollaries visible at the spec level) -/
 
